@@ -301,6 +301,27 @@ def check_expansion(ctx, FB, exp, md_rows, rows):
                         ctx.violate("um.pair", key + "|roundtrip",
                                     f"{exp} Update{kind}: {field}() after set_{field}({', '.join(show(a) for a in vals)}) returns {show(res)} — the getter does not return the value that was set", getter["file"], getter["line"])
                         break
+                # holes: with only index `ch` set, the getter of any other index finds nothing of its own and must say so
+                if getter is not None and enum_pos and len(getter["inputs"]) - 1 == len(enum_pos) and len(enum_pos) == 1:
+                    nv = envs.n_variants(ptys[enum_pos[0]])
+                    hole_bad = False
+                    for k in sorted({ch - 1, ch + 1, 0, nv - 1} - {ch}):
+                        if not (0 <= k < nv):
+                            continue
+                        try:
+                            karg = Env(FB).value(ptys[enum_pos[0]], choose=k)
+                            r2 = Mini(FB, "wow_world_messages").call_fn(getter["path"], [u, karg])
+                        except (Unsupported, Panic) as e:
+                            ctx.violate("um.pair", key + "|hole-shape", f"{exp} Update{kind}::{field}(): not interpretable with a hole — review ({e})", getter["file"], getter["line"])
+                            hole_bad = True
+                            break
+                        if r2 != "None":
+                            ctx.violate("um.pair", key + "|hole", f"{exp} Update{kind}: with only element {show(args[enum_pos[0]])} of {field} set, {field}({show(karg)}) returns {show(r2)} instead of None: "
+                                        "the getter reads words that belong to another element (its window is wider than one element)", getter["file"], getter["line"])
+                            hole_bad = True
+                            break
+                    if hole_bad:
+                        break
                 # builder: same effect
                 if bsetter is not None and ch in (None, 0):
                     try:
